@@ -155,6 +155,9 @@ namespace bloch::compiler {
         struct ClassInfo {
             std::string name;
             std::string base;
+            // the base as written after 'extends', type arguments included (in terms of this
+            // class's own type parameters); className == base
+            TypeInfo baseType;
             bool isStatic = false;
             bool isAbstract = false;
             bool hasDestructor = true;       // implicit default exists
@@ -225,6 +228,17 @@ namespace bloch::compiler {
         bool isThisReference(Expression* expr) const;
         void checkArrayLiteralValue(const TypeInfo& target, Expression* value, int line,
                                     int column) const;
+        // Generic inheritance: the base of a class type with its type arguments filled in
+        // (Box<int> for IntBox extends Box<int>; Box<string> for LabeledBox<string> extends
+        // Box<T>), the class 'owner' as seen from a subclass type, and a member's declared type
+        // seen from there.
+        TypeInfo baseTypeOf(const TypeInfo& classType) const;
+        TypeInfo ownerTypeFor(const TypeInfo& classType, const std::string& owner) const;
+        TypeInfo memberTypeFrom(const TypeInfo& classType, const std::string& owner,
+                                const TypeInfo& declared) const;
+        std::vector<TypeInfo> memberTypesFrom(const TypeInfo& classType, const std::string& owner,
+                                              const std::vector<TypeInfo>& declared) const;
+        TypeInfo selfType() const;  // the current class applied to its own type parameters
         bool isSuperConstructorCall(Statement* stmt) const;
         std::unique_ptr<Type> typeFromTypeInfo(const TypeInfo& typeInfo) const;
         void inferDiamondTypeArguments(Expression* initializer, const TypeInfo& expectedType,
